@@ -213,7 +213,7 @@ class BaseMove(Generic[OperationType, ContextType]):
             The composite move.
         """
         if isinstance(other, CompositeMove):
-            if type(self.composite_move_type) is type(other):
+            if self.composite_move_type is type(other):
                 return self.composite_move_type([self, *other.moves])
             else:
                 return CompositeMove([self, *other.moves])
